@@ -87,7 +87,7 @@ def intValidate (min max : Int) (v : PVal F) : Except Err Int :=
   | .ok i => if min ≤ i ∧ i ≤ max then .ok i else .error .range
 
 /-- `ScaledInteger.__call__` (436-448): `intval = int(round(value / self.scale))`,
-`float(intval * self.scale)`; a NaN/±inf quotient is a `RangeError` -/
+`float(intval * self.scale)`; a NaN/±inf quotient and an infinite product are `RangeError`s -/
 def scaledCall (scale : F) (v : PVal F) : Except Err F :=
   match toFloat? v with
   | none => .error .wrongType
@@ -97,7 +97,9 @@ def scaledCall (scale : F) (v : PVal F) : Except Err F :=
     | some k =>
       match (ofInt k : Option F) with
       | none => .error (.other "OverflowError")      -- int too large to convert to float (never: law `round_ofInt`)
-      | some y => .ok (mul y scale)
+      | some y =>
+        if isFinite (mul y scale) then .ok (mul y scale)
+        else .error .range                             -- the nearest grid value lies beyond ±max
 
 /-- `ScaledInteger.validate` (450-456): the range test is on the value as offered, the result is the
 grid value clamped between the grid values of the limits -/
